@@ -301,113 +301,28 @@ func c22Expand(cs c22Case, literal bool) string {
 
 // ---- exclusion region (mirror of ShVerif.C22.Clean) ----
 
-func c22Unbackslash(s string) string {
-	var sb strings.Builder
-	for i := 0; i < len(s); i++ {
-		b := s[i]
-		if b == '\\' && i+1 < len(s) {
-			i++
-			b = s[i]
-		}
-		sb.WriteByte(b)
-	}
-	return sb.String()
-}
-
-// c22Excluded reports whether the case lies where the unchanged tree is known to differ from
-// POSIX/bash (findings C22-*): a non-white-space IFS character of an unquoted expansion that would
-// delimit an empty field; `$@` inside double quotes together with other parts; an empty `""` in a
-// word that also has an unquoted expansion; an empty unquoted literal.
+// c22Excluded reports whether the case lies where the tree is known to differ from POSIX/bash
+// (open finding C22-at-in-dquotes): `$@` inside double quotes together with other parts; or where the
+// model makes no claim: a NUL byte in double-quoted literal text (mirror of ShVerif.C22.partOk).
+// (The exclusions for non-white-space IFS delimiters, an empty "" next to an expansion, an empty
+// unquoted literal and unquoted $@ with empty parameters went away with fe5aeee, d04d00a, 51168a7.)
 func c22Excluded(cs c22Case) (bool, string) {
-	ifsv := cs.ifsv()
-	isIfs := func(r rune) bool { return strings.ContainsRune(ifsv, r) }
-	isWs := func(r rune) bool { return r == ' ' || r == '\t' || r == '\n' }
-	hasEmptyDq, hasSplit := false, false
 	for _, p := range cs.parts {
-		switch p.kind {
-		case 'L':
-			if p.val == "" {
-				return true, "empty-literal"
-			}
-		case 'D':
-			if len(p.ds) == 0 {
-				hasEmptyDq = true
-			}
-			at := false
-			for _, d := range p.ds {
-				if d.kind == 'a' {
-					at = true
-				}
-			}
-			if at && len(p.ds) != 1 {
-				return true, "at-in-mixed-dquotes"
-			}
-			if at {
-				hasSplit = true // "$@" breaks the word: not a `plain` part
-			}
-			for _, d := range p.ds {
-				if d.kind == 'l' && strings.ContainsRune(d.val, 0) {
-					return true, "nul-in-literal"
-				}
-			}
-		case 'E', 'C', 'A', 'T':
-			hasSplit = true
+		if p.kind != 'D' {
+			continue
 		}
-	}
-	if hasEmptyDq && hasSplit {
-		return true, "empty-dquotes-with-expansion"
-	}
-	present, pend := false, false
-	bad := false
-	scan := func(v string) {
-		for _, r := range v {
-			switch {
-			case !isIfs(r):
-				present, pend = true, false
-			case isWs(r):
-				if present {
-					present, pend = false, true
-				}
-			default:
-				if present {
-					present, pend = false, false
-				} else if pend {
-					pend = false
-				} else {
-					bad = true
-				}
+		at := false
+		for _, d := range p.ds {
+			if d.kind == 'a' {
+				at = true
+			}
+			if d.kind == 'l' && strings.ContainsRune(d.val, 0) {
+				return true, "nul-in-literal"
 			}
 		}
-	}
-	brk := func() { present, pend = false, false }
-	for _, p := range cs.parts {
-		switch p.kind {
-		case 'L', 'S':
-			present, pend = true, false
-		case 'D':
-			if len(p.ds) == 1 && p.ds[0].kind == 'a' {
-				for i := range cs.params {
-					if i > 0 {
-						brk()
-					}
-					present, pend = true, false
-				}
-			} else {
-				present, pend = true, false
-			}
-		case 'E', 'C':
-			scan(c22Eff(p.kind, p.val))
-		case 'A', 'T':
-			for i, v := range cs.params {
-				if i > 0 {
-					brk()
-				}
-				scan(v)
-			}
+		if at && len(p.ds) != 1 {
+			return true, "at-in-mixed-dquotes"
 		}
-	}
-	if bad {
-		return true, "empty-field-delim"
 	}
 	return false, ""
 }
@@ -534,46 +449,6 @@ func c22BashArtifact(cs c22Case) bool {
 			if hasMulti(v) {
 				return true
 			}
-		}
-	}
-	return false
-}
-
-// c22BashEmptyParam: unquoted $@ / $* with two or more parameters while the *first* IFS character is
-// not white space.  bash joins the parameters with that character and splits the result again, so
-// an empty parameter, or one that begins or ends with a non-white-space IFS character, comes back
-// with an extra empty field (`set -- x '' y; IFS=:; $@` gives 3 fields, with IFS=' :' 2;
-// `set -- a: b; IFS=:; $@` gives 3).  POSIX lets empty fields be discarded here and dash discards
-// them, as the implementation does (finding C22-unquoted-at-rejoin; kept out of the stream).
-func c22BashEmptyParam(cs c22Case) bool {
-	ifsv := cs.ifsv()
-	first, _ := utf8.DecodeRuneInString(ifsv)
-	if ifsv == "" || first == ' ' || first == '\t' || first == '\n' {
-		return false
-	}
-	unq := false
-	for _, p := range cs.parts {
-		if p.kind == 'A' || p.kind == 'T' {
-			unq = true
-		}
-	}
-	if !unq || len(cs.params) < 2 {
-		return false
-	}
-	isD := func(r rune) bool {
-		return strings.ContainsRune(ifsv, r) && r != ' ' && r != '\t' && r != '\n'
-	}
-	for _, v := range cs.params {
-		t := strings.TrimFunc(v, func(r rune) bool {
-			return strings.ContainsRune(ifsv, r) && (r == ' ' || r == '\t' || r == '\n')
-		})
-		if t == "" {
-			return true
-		}
-		f, _ := utf8.DecodeRuneInString(t)
-		l, _ := utf8.DecodeLastRuneInString(t)
-		if isD(f) || isD(l) {
-			return true
 		}
 	}
 	return false
@@ -975,7 +850,7 @@ func c22(c *Ctx) {
 			if asg {
 				ok = ok && !c22HasLitBackslash(cs)
 			} else {
-				ok = ok && !ex && !c22BashEmptyParam(cs)
+				ok = ok && !ex
 			}
 			// the script carries every value in single quotes: NUL cannot be written
 			if ok || try > 30 {
